@@ -333,6 +333,11 @@ func align() {
 func (w *world) advance(d time.Duration) {
 	time.Sleep(d)
 	align()
+	w.settle()
+}
+
+// settle moves the clock out of the next-query jitter windows; called before every lookup.
+func (w *world) settle() {
 	for moved := true; moved; {
 		moved = false
 		now := time.Now()
@@ -404,6 +409,7 @@ func (w *world) drawPlan() map[seg.Type]*faultPlan {
 
 func (w *world) lookup() {
 	r := w.r
+	w.settle()
 	dst, kind := w.pickDst()
 	refresh := r.Chance("lookup.refresh", 1, 5)
 	timeout := []time.Duration{5 * time.Second, 1 * time.Second, 20 * time.Second}[r.Choice("lookup.timeout", 3)]
@@ -489,10 +495,15 @@ func (w *world) lookup() {
 	if len(lk.crossed) > 0 {
 		w.lastCrossed = lk.crossed
 	}
+	for _, k := range core.SortedKeys(lk.kinds) {
+		r.Probe(k)
+	}
 	for _, s := range lk.rendered {
 		r.Logf("  path %s", s)
 	}
-	if len(paths) > 0 {
+	if dst.Equal(w.local.ia) {
+		r.Probe("local-lookup")
+	} else if len(paths) > 0 {
 		r.Probe("paths-returned")
 		r.Nontrivial = true
 		if kind == "wildcard" || kind == "wildcard-own-isd" {
